@@ -20,7 +20,7 @@
 From RM Require Import Model.EncPathSpec Model.HitObjectSpec Proofs.EncPathRT Proofs.EncPathImage Proofs.EncSlider Proofs.EncLineImage Proofs.EncMapImage.
 From RM Require Import Model.EncObjCarry Proofs.EncObjectsRT.
 From RM Require Import Proofs.TimingPointsValues Proofs.Enc2Values Proofs.Enc2Samples Proofs.Enc2Examples.
-From RM Require Import Model.EncTimingSpec Proofs.Enc2Timing.
+From RM Require Import Model.EncTimingSpec Proofs.Enc2Timing Model.DrvEnc Proofs.Enc2D32.
 From RM Require Import Model.EncSpec Proofs.EncFmt Proofs.EncShape Proofs.EncSimple Proofs.EncImage Proofs.EncObjects Proofs.EncRound Proofs.EncTiming.
 From RM Require Import Gen.Generated.
 Open Scope Z_scope.
@@ -547,6 +547,27 @@ Proof.
   exact (decoded_timing_lines_accepted dist events f64 f32 fi Hfmt lines m c H1 H2 H3 H4).
 Qed.
 Print Assumptions C04_decoded_timing_lines_accepted.
+
+(* D32 (known finding, new): [sample_times_ok] is NOT an invariant -- the sample point collected at
+   the tail of a slider that ends beyond the parse limit is written as a line that the decoder's
+   field parser rejects in every General state, for every formatting function.  Witness with the
+   real curve and slider-event models (one slider, 16 spans of 100000 px at 6.7e-4 px/ms). *)
+Theorem C04_timing_line_time_beyond_limit_rejected :
+  forall fmt_f64 fmt_f32 fmt_int, fmt_ok fmt_f64 fmt_f32 fmt_int ->
+  forall time beat p tc, is_finite time = true -> in_lim64 time = false ->
+  forall g, parse_tp_line g (render fmt_f64 fmt_f32 fmt_int (tp_line time beat p tc)) = None.
+Proof. intros f64 f32 fi Hfmt time beat p tc H1 H2. exact (tp_line_time_beyond_rejected f64 f32 fi Hfmt time beat p tc H1 H2). Qed.
+Print Assumptions C04_timing_line_time_beyond_limit_rejected.
+
+Theorem C04_slider_end_beyond_limit_refuted :
+  exists text m c r,
+    decode_beatmap (dist_real lm0) (lines_of_text text) = Done m /\
+    enc_control_points (dist_real lm0) events_real m = Done c /\
+    In r (enc_records c) /\ sample_times_ok c = false /\
+    forall fmt_f64 fmt_f32 fmt_int, fmt_ok fmt_f64 fmt_f32 fmt_int ->
+    forall g, parse_tp_line g (render fmt_f64 fmt_f32 fmt_int (wrec_line r)) = None.
+Proof. exact slider_end_beyond_limit_refuted. Qed.
+Print Assumptions C04_slider_end_beyond_limit_refuted.
 
 Theorem C04_decoded_timing_records_within_limits :
   forall dist events lines m c,
